@@ -266,6 +266,9 @@ mod serdeize;
 pub mod traits;
 pub mod transcendental;
 pub mod types;
+#[cfg(substrate_fixed_verif)]
+#[allow(missing_docs)]
+pub mod verif_hook;
 mod wide_div;
 mod wrapping;
 
